@@ -156,6 +156,20 @@ struct Ctx {
 		}                            \
 	} while (0)
 
+// optional: a harness may provide its own exhaustive / multi-threaded loop (engine mode 'custom').
+// It reports measured counts; on failure it returns a tape that reproduces the failure through h_run.
+struct CustomOut {
+	unsigned long evaluations = 0, nontrivial = 0, distinct = 0;
+	bool exhaustive = false;
+	std::map<std::string, unsigned long> classes;
+	std::vector<std::string> samples; // human-readable cases
+	bool failed = false;
+	std::vector<uint32_t> fail_tape;
+	std::string failmsg;
+};
+void h_custom(long worker, long workers, long seed, std::map<std::string, std::string> &params, CustomOut &o)
+	__attribute__((weak));
+
 // every harness defines these two
 extern const char *H_NAME;
 void h_run(Ctx &c);
